@@ -136,7 +136,7 @@ class Acc(object):
 
     def __exit__(self, t, v, tb):
         self.depth -= 1
-        return False
+        return self._level > 1          # swallows the body's exception at level 2
 
     def bump(self, n=1):
         self.total = min(3, self.total + n)
@@ -351,6 +351,10 @@ def perform(kind, op, x):
                 return g is x
         with x:
             return None
+    if o == "with_raise":
+        with x:
+            raise KeyError(7)
+        return None
     if o == "enter": return x.__enter__()
     if o == "exit": return x.__exit__(None, None, None)
     if o == "getattr_missing": return x.no_such_attribute
